@@ -65,9 +65,22 @@ type Exec struct {
 	writes []WriteRec
 	curAct int
 	// loop invariants supplied by contracts: key "Func#k"
-	invariants map[string]*LoopSpec
-	sideObls   []SideObl
-	inInit     bool
+	invariants   map[string]*LoopSpec
+	sideObls     []SideObl
+	inInit       bool
+	knownTerms   map[*Term]*Term
+	feasCache    map[*Term]bool
+	symLoopBound int
+	maxSymUnroll int
+	feasQueries  int
+	calls        []CallRec
+}
+
+// CallRec records an invocation of a hooked (contracted) function.
+type CallRec struct {
+	Name string
+	C    *Term
+	Args []Value
 }
 
 type WriteRec struct {
@@ -89,7 +102,9 @@ func NewExec(prog *ssa.Program, pkg *ssa.Package) *Exec {
 		notes: map[string]bool{}, globals: map[*ssa.Global]*Obj{}, initCache: map[*Obj]Value{},
 		hooks: map[string]CallHook{}, matCache: map[string]Value{}, concItems: map[*Term]IfaceAlt{},
 		absCache: map[string]*Term{}, maxDepth: 40, loopLimit: 80, loopInfo: map[*ssa.Function]*loops{},
-		invariants: map[string]*LoopSpec{}}
+		invariants: map[string]*LoopSpec{}, knownTerms: map[*Term]*Term{}}
+	ex.symLoopBound = 3
+	curExec = ex
 	return ex
 }
 
@@ -167,6 +182,30 @@ func (ex *Exec) heapGet(st *State, o *Obj) Value {
 	return v
 }
 
+// initialOf: the pre-state content of an object that exists before the execution started.
+func (ex *Exec) initialOf(o *Obj) (Value, bool) {
+	if v, ok := ex.initHeap[o]; ok {
+		return v, true
+	}
+	if v, ok := ex.initCache[o]; ok {
+		return v, true
+	}
+	if o.init != nil {
+		v := o.init()
+		ex.initCache[o] = v
+		return v, true
+	}
+	if o.fresh {
+		return nil, false
+	}
+	if o.kind == OCell && o.T != nil {
+		v := ex.zeroValue(o.T)
+		ex.initCache[o] = v
+		return v, true
+	}
+	return nil, false
+}
+
 func (ex *Exec) navigate(st *State, v Value, path []PathElem, o *Obj) Value {
 	for i, pe := range path {
 		if pe.Index != nil {
@@ -185,7 +224,9 @@ func (ex *Exec) navigate(st *State, v Value, path []PathElem, o *Obj) Value {
 			panic(fmt.Sprintf("navigate: field %d of %T in %s", pe.Field, v, o))
 		}
 		if pe.Field >= len(sv.F) {
-			panic(unsupported(fmt.Sprintf("view reads field %d beyond the %d fields of %s", pe.Field, len(sv.F), typeName(sv.T))))
+			ex.note(fmt.Sprintf("view reads field %d beyond the %d fields of %s: unknown memory", pe.Field, len(sv.F), typeName(sv.T)))
+			ex.objSeq++
+			return &oobVal{}
 		}
 		v = sv.F[pe.Field]
 	}
@@ -195,7 +236,7 @@ func (ex *Exec) navigate(st *State, v Value, path []PathElem, o *Obj) Value {
 func (ex *Exec) arrSelect(a *ArrVal, idx *Term) Value {
 	if n, ok := idx.IntVal(); ok {
 		if n < 0 || int(n) >= len(a.E) {
-			panic(unsupported("concrete index out of range in engine array"))
+			return &oobVal{} // the bounds violation itself is recorded as a panic condition by the caller
 		}
 		return a.E[n]
 	}
@@ -257,7 +298,7 @@ func (ex *Exec) update(v Value, path []PathElem, f func(old Value) Value) Value 
 			r := &ArrVal{E: append([]Value(nil), a.E...)}
 			if n, ok := pe.Index.IntVal(); ok {
 				if n < 0 || int(n) >= len(a.E) {
-					panic(unsupported("concrete store index out of range in engine array"))
+					return a // out-of-range store: recorded as a panic condition by the caller
 				}
 				r.E[n] = ex.update(a.E[n], path[1:], f)
 				return r
@@ -297,7 +338,14 @@ func (ex *Exec) asType(v Value, t types.Type) Value {
 		return v
 	}
 	if st.NumFields() > len(sv.F) {
-		panic(unsupported(fmt.Sprintf("view of %s as wider %s", typeName(sv.T), typeName(t))))
+		// widening view (a failed C08 obligation): the extra fields read memory outside the value
+		ex.note(fmt.Sprintf("view of %s as wider %s: fields beyond the value read unknown memory", typeName(sv.T), typeName(t)))
+		f := append([]Value(nil), sv.F...)
+		for i := len(sv.F); i < st.NumFields(); i++ {
+			ex.objSeq++
+			f = append(f, ex.symValue(st.Field(i).Type(), varNamer(fmt.Sprintf("oob!%d.%s", ex.objSeq, st.Field(i).Name())), false))
+		}
+		return &StructVal{T: t, F: f}
 	}
 	return &StructVal{T: t, F: sv.F[:st.NumFields()]}
 }
@@ -355,7 +403,8 @@ func (ex *Exec) store(st *State, p *PtrVal, v Value, pos token.Pos) {
 					copy(f, nsv.F)
 					vv = &StructVal{T: osv.T, F: f}
 				} else if ok && len(nsv.F) > len(osv.F) {
-					panic(unsupported("store through wider view"))
+					ex.note("store through a widening view: fields beyond the value are dropped (they would overwrite unrelated memory)")
+					vv = &StructVal{T: osv.T, F: nsv.F[:len(osv.F)]}
 				} else if ok {
 					vv = &StructVal{T: osv.T, F: nsv.F}
 				}
@@ -477,6 +526,7 @@ type frame struct {
 	li     *loops
 	bind   []Value
 	params []Value
+	ifCond map[int]*Term
 }
 
 func (ex *Exec) mergeStates(a, b *State) *State {
@@ -511,14 +561,20 @@ func (ex *Exec) mergeStates(a, b *State) *State {
 			} else {
 				r.heap[k] = ex.merge(c, vb, va)
 			}
-		} else {
+		} else if iv, ok := ex.initialOf(k); ok {
 			// b never touched k: its value there is the initial one
-			r.heap[k] = ex.merge(c, ex.heapGet(b, k), va)
+			r.heap[k] = ex.merge(c, iv, va)
+		} else {
+			r.heap[k] = va // allocated on a's path only: unreachable from b
 		}
 	}
 	for k, vb := range b.heap {
 		if _, ok := a.heap[k]; !ok {
-			r.heap[k] = ex.merge(c, vb, ex.heapGet(a, k))
+			if iv, ok := ex.initialOf(k); ok {
+				r.heap[k] = ex.merge(c, vb, iv)
+			} else {
+				r.heap[k] = vb
+			}
 		}
 	}
 	return r
@@ -539,7 +595,12 @@ func (ex *Exec) Call(st *State, fn *ssa.Function, args []Value, bind []Value) Va
 			cnt++
 		}
 	}
-	if cnt >= 3 {
+	if cnt >= 1 && !ex.feasible(st.pc) {
+		// infeasible path reached a recursive call: prune it
+		st.pc = TFalse
+		return ex.zeroOfResult(fn.Signature.Results())
+	}
+	if cnt >= 4 {
 		panic(unsupported("unbounded recursion without contract: " + fn.String()))
 	}
 	ex.stack = append(ex.stack, fn)
@@ -548,7 +609,7 @@ func (ex *Exec) Call(st *State, fn *ssa.Function, args []Value, bind []Value) Va
 	ex.curAct = ex.actSeq
 	defer func() { ex.stack = ex.stack[:len(ex.stack)-1]; ex.curAct = savedAct }()
 
-	fr := &frame{fn: fn, act: ex.actSeq, edges: map[[2]int]*State{}, retC: TFalse, li: ex.loopsOf(fn), bind: bind, params: args}
+	fr := &frame{fn: fn, act: ex.actSeq, edges: map[[2]int]*State{}, retC: TFalse, li: ex.loopsOf(fn), bind: bind, params: args, ifCond: map[int]*Term{}}
 	entry := &State{pc: st.pc, env: map[ssa.Value]Value{}, heap: st.heap}
 	for i, p := range fn.Params {
 		entry.env[p] = args[i]
@@ -683,10 +744,19 @@ func (ex *Exec) execLoop(fr *frame, lp *loop) {
 			bodyOrder = append(bodyOrder, b)
 		}
 	}
+	symIters := 0
 	for iter := 0; ; iter++ {
 		if iter > ex.loopLimit {
 			ex.bounded = true
 			ex.note(fmt.Sprintf("loop %s cut after %d iterations (residual path assumed away: bounded)", key, ex.loopLimit))
+			break
+		}
+		if symIters > ex.symLoopBound {
+			ex.bounded = true
+			if ex.symLoopBound > ex.maxSymUnroll {
+				ex.maxSymUnroll = ex.symLoopBound
+			}
+			ex.note(fmt.Sprintf("loop %s with symbolic trip count unrolled %d times (residual path assumed away: bounded)", key, ex.symLoopBound))
 			break
 		}
 		// clear intra-loop edges
@@ -703,7 +773,11 @@ func (ex *Exec) execLoop(fr *frame, lp *loop) {
 		} else {
 			// phis were evaluated from the back edges below
 		}
+		delete(fr.ifCond, h.Index)
 		ex.execBlock(fr, h, hst, func() {})
+		if hc := fr.ifCond[h.Index]; hc != nil && !hc.IsLit() {
+			symIters++
+		}
 		ex.execBlocks(fr, bodyOrder, lp)
 		// collect exits
 		for _, b := range bodyOrder {
@@ -750,6 +824,7 @@ func (ex *Exec) execBlock(fr *frame, b *ssa.BasicBlock, st *State, skipPhis func
 		switch x := ins.(type) {
 		case *ssa.If:
 			c := ex.operand(st, x.Cond).(*Term)
+			fr.ifCond[b.Index] = c
 			t := &State{pc: And(st.pc, c), env: st.env, heap: st.heap}
 			f := &State{pc: And(st.pc, Not(c)), env: st.env, heap: st.heap}
 			fr.edges[[2]int{b.Index, b.Succs[0].Index}] = t
@@ -855,4 +930,30 @@ func (ex *Exec) constValue(c *ssa.Const) Value {
 		return StrLit(constant.StringVal(c.Value))
 	}
 	panic(unsupported("constant " + c.String()))
+}
+
+// oobVal marks a read outside the viewed value; using it is outside the subset.
+type oobVal struct{}
+
+// feasible asks a solver whether the path condition is satisfiable together with the assumptions.
+// Unknown counts as feasible. Results are cached per term.
+func (ex *Exec) feasible(pc *Term) bool {
+	if pc == TFalse {
+		return false
+	}
+	if pc == TTrue {
+		return true
+	}
+	if ex.feasCache == nil {
+		ex.feasCache = map[*Term]bool{}
+	}
+	if r, ok := ex.feasCache[pc]; ok {
+		return r
+	}
+	sc := &Script{Asserts: append([]*Term{pc}, ex.assumes...)}
+	body := sc.Render(allAxioms)
+	ex.feasQueries++
+	res := quickSat(body)
+	ex.feasCache[pc] = res
+	return res
 }
